@@ -5,6 +5,8 @@ go 1.19
 require (
 	github.com/aml-org/amf-custom-validator v0.0.0
 	github.com/open-policy-agent/opa v0.47.0
+	github.com/piprate/json-gold v0.4.0
+	gopkg.in/yaml.v3 v3.0.1
 )
 
 require (
@@ -12,7 +14,6 @@ require (
 	github.com/agnivade/levenshtein v1.1.1 // indirect
 	github.com/ghodss/yaml v1.0.0 // indirect
 	github.com/gobwas/glob v0.2.3 // indirect
-	github.com/piprate/json-gold v0.4.0 // indirect
 	github.com/pkg/errors v0.9.1 // indirect
 	github.com/pquerna/cachecontrol v0.0.0-20180517163645-1555304b9b35 // indirect
 	github.com/rcrowley/go-metrics v0.0.0-20201227073835-cf1acfcdf475 // indirect
@@ -21,7 +22,6 @@ require (
 	github.com/xeipuuv/gojsonreference v0.0.0-20180127040603-bd5ef7bd5415 // indirect
 	github.com/yashtewari/glob-intersection v0.1.0 // indirect
 	gopkg.in/yaml.v2 v2.4.0 // indirect
-	gopkg.in/yaml.v3 v3.0.1 // indirect
 )
 
 replace github.com/aml-org/amf-custom-validator => /repo
